@@ -29,6 +29,7 @@ var (
 	fAvoid    = flag.String("avoid", "", "comma separated generator avoid switches")
 	fVerbose  = flag.Bool("v2", false, "print every run")
 	fList     = flag.Bool("list", false, "list properties as JSON")
+	fHashes   = flag.Bool("hashes", false, "record a fingerprint of every run (determinism self-test)")
 )
 
 // Failure is one failing run as written to worker output and replay files.
@@ -61,6 +62,7 @@ type WorkerOut struct {
 	Stats     *Stats         `json:"stats"`
 	Failures  []Failure      `json:"failures"`
 	FailCount map[string]int `json:"fail_count"`
+	RunHashes map[int]string `json:"run_hashes,omitempty"`
 }
 
 func avoidSet(s string) map[string]bool {
@@ -84,8 +86,14 @@ func runOne(t *testing.T, p *Prop, tier string, W, S *simrt.Choices, avoid map[s
 	res := simrun.Run(t, cfg, S, func(mt *simrt.Task) {
 		ctx.Sim = mt.Sim()
 		ctx.Main = mt
+		ctx.Sim.LogNorm = newIDNormaliser()
 		p.Run(ctx, cs)
 	})
+	ctx.post = true
+	ctx.schedHash = res.SchedHash
+	if p.Post != nil && res.Verdict == simrt.VOK && ctx.viol == nil {
+		p.Post(ctx, cs)
+	}
 	out := Outcome{Res: res, W: W.Rec, Case: cs, WallNs: int64(time.Since(start)), SimTimeNs: int64(res.SimTime)}
 	switch {
 	case ctx.viol != nil:
@@ -103,6 +111,9 @@ func runOne(t *testing.T, p *Prop, tier string, W, S *simrt.Choices, avoid map[s
 		} else {
 			out.Inconcl = true
 		}
+	}
+	if ctx.inconclusive && out.Viol == nil {
+		out.Inconcl = true
 	}
 	st.Runs++
 	st.Steps += int64(res.Steps)
@@ -224,6 +235,16 @@ func doRuns(t *testing.T, p *Prop) {
 		S := simrt.NewChoices(sd ^ 0x5DEECE66D)
 		o := runOne(t, p, *fTier, W, S, avoid, st)
 		out.Done++
+		if *fHashes {
+			if out.RunHashes == nil {
+				out.RunHashes = map[int]string{}
+			}
+			cls := ""
+			if o.Viol != nil {
+				cls = o.Viol.Class
+			}
+			out.RunHashes[run] = fmt.Sprintf("%016x:%016x:%d:%s:%s", o.Res.LogHash, o.Res.SchedHash, o.Res.Steps, o.Res.Verdict, cls)
+		}
 		if run < 3 || (run%97 == 0 && len(st.Samples) < 6) {
 			st.Samples = append(st.Samples, clip(o.Case.Describe(), 60))
 		}
